@@ -20,8 +20,8 @@ from harness.props import c05_gen as G
 from harness.props import c05_oracle as O
 
 THEOREMS = [
-    "C05_outcomes_partial", "C05_outcomes_refuted", "C05_value_error_iff_partial", "C05_hooks",
-    "C05_first_bad", "C05_all_good_ok", "C05_extra_exact_partial", "C05_extra_exact_refuted",
+    "C05_outcomes", "C05_value_error_iff", "C05_hooks",
+    "C05_first_bad", "C05_all_good_ok", "C05_extra_exact",
     "C05_no_silent_default_partial", "C05_union_outcomes", "C05_union_exceptions",
     "C05_union_rejects_garbage_partial", "C05_union_rejects_garbage_refuted", "C05_discr_partial",
     "C05_discr_nonmapping_refuted", "C05_discr_unhashable_refuted", "C05_discr_nofield",
@@ -32,7 +32,7 @@ UNION_MEMBERS = ["int", "float", "bool", "str", "None", "date", "UUID", "List[in
 SCALARS = {"int": "SInt", "float": "SFloat", "bool": "SBool", "str": "SStr", "None": "SNone"}
 
 PROBES = [
-    # known findings: minimal reproducers, run on every execution
+    # known findings (P_e0 / P_e0f: repaired by abe4c99, kept as regression probes): minimal reproducers, run on every execution
     ({"cls": "P_union", "source": "@dataclass\nclass P_union(DataClassDictMixin):\n    u: Union[int, None, date] = 0\n",
       "fields": [{"name": "u", "type": "Union[int, None, date]", "mode": "def", "alias": None}], "mixin": True,
       "forbid": False, "allow_nba": False, "discr": None, "discr_keys": []}, {"u": "garbage"}),
@@ -327,11 +327,14 @@ def shape_problems(src: str, field_names: list[str], ident_names: set[str], forb
         return []
     fn = fns[0]
     outer = [s for s in fn.body if isinstance(s, ast.Try)]
-    if field_names and len(outer) != 1:
+    if len(outer) != 1:
+        # field-less classes included (fix abe4c99): the frame is emitted for every class
         return [f"expected exactly one top-level try in from_dict, found {len(outer)}"]
-    if not field_names:
-        return []
     tr = outer[0]
+    if not field_names and not forbid:
+        # the only statement is the bare attribute access `d.keys` (makes a non-mapping fail)
+        if not (len(tr.body) == 1 and isinstance(tr.body[0], ast.Expr) and ast.unparse(tr.body[0].value) == "d.keys"):
+            probs.append("field-less class: try body is not the bare `d.keys`")
     hs = tr.handlers
     if not (len(hs) == 1 and isinstance(hs[0].type, ast.Name) and hs[0].type.id == "AttributeError"):
         probs.append("outer handler is not exactly `except AttributeError`")
@@ -490,13 +493,18 @@ def run(ctx: vlib.Ctx):
                 # structural tie on every captured from_dict program of this class
                 names = [f["name"] for f in s["fields"]]
                 idents = {f["name"] for f in s["fields"] if G.POOL_BY_EXPR[f["type"]].ident}
-                for p in progs:
-                    if _is_root_program(p, s):
-                        shape_checked += 1
-                        pr = shape_problems(p, names, idents, s["forbid"])
-                        if pr:
-                            shape_bad += 1
-                            shape_detail.append(f"{s['cls']}: {pr[0]}")
+                roots = [p for p in progs if _is_root_program(p, s)]
+                if not roots:
+                    # every class, field-less ones included, gets the try / except AttributeError frame
+                    shape_checked += 1
+                    shape_bad += 1
+                    shape_detail.append(f"{s['cls']}: no generated from_dict with the non-mapping frame was captured")
+                for p in roots:
+                    shape_checked += 1
+                    pr = shape_problems(p, names, idents, s["forbid"])
+                    if pr:
+                        shape_bad += 1
+                        shape_detail.append(f"{s['cls']}: {pr[0]}")
         for fs in G.FIXED_SCHEMAS:
             mod = G.build_module(fs)
             schemas.append((fs, mod, entries(fs, mod)))
